@@ -12,6 +12,8 @@ import Golib.Proof.C03RB
 import Golib.Proof.C03Enum
 import Golib.Proof.C03Iter
 import Golib.Proof.C03Bridge
+import Golib.Proof.C03OverSkip
+import Golib.Proof.C03Run
 import Golib.Gen.FactsC03
 
 namespace Golib.C03
@@ -162,6 +164,57 @@ theorem c03_skiplist_interface (r : RB) (h : r.Inv) (k : Nat) (c : Container) :
 example : omSet [(0, .arr #[1]), (3, .arr #[7])] 1 (.arr #[2]) = [(0, .arr #[1]), (1, .arr #[2]), (3, .arr #[7])] ∧
     KeySorted [(0, .arr #[1]), (3, .arr #[7])] := by
   refine ⟨by simp [omSet], by unfold KeySorted; decide⟩
+
+/-- The composition C03 ∘ C02.  `RBS` is the RoaringBitmap code (`Add/Remove/Contains` and the
+`Head()/Next()/Key()/Value()` bucket walk of `Range/All/Iter`) run on the skip-list MODEL of
+property C02 (`Model/C02Skip.lean`: the towers, `GetNode/Get/Set/Remove/Head/node.Next/
+node.Value/node.SetValue` as `listz/skip.go` walks, lazily initialised from the zero value,
+tower heights from arbitrary random words `w`); `RB` is the model all the theorems above are
+about, run on a key-ascending association list.  For every sequence of calls with `uint32`
+arguments, started from the zero value on both sides: no call panics on either side, the answers
+are equal, and at the end the association list IS the abstraction (`toMap`) of the skip list,
+which is in a reachable state of C02 (`Good`), the two `len` fields agree, `Contains` agrees
+everywhere, and the node chain `Head(), Next(), …` of the skip list carries exactly the
+buckets `r.cs` over which `RB.range / RB.all / RB.iter` are defined. -/
+theorem c03_over_skiplist (ops : List SOp) (hx : ∀ op ∈ ops, op.arg < 4294967296) :
+    ∃ r rs outs, RB.runS RB.empty ops = some (r, outs) ∧ RBS.run RBS.zero ops = some (rs, outs) ∧
+      (r.cs = Golib.C02.toMap rs.sl ∧ r.len = rs.len ∧ Golib.C02.Good cfgRB rs.sl) ∧ r.Inv ∧
+      (∀ x, rs.contains x = r.contains x) ∧ rs.nodes = some r.cs := by
+  obtain ⟨r, rs, outs, h1, h2, h3, h4⟩ := run_over_skip ops rel_zero RB.empty_inv hx
+  exact ⟨r, rs, outs, h1, h2, h3, h4, contains_sim h3, nodes_sim h3⟩
+
+/-- `RBS` really runs: two buckets (keys 0 and 1; the second `Set` draws tower height 3, so the
+list grows to level 2), then the first bucket is emptied and its node unlinked from both levels. -/
+example :
+    let res := RBS.run RBS.zero [.add 1 0, .add 70000 (2 ^ 29), .contains 70000, .remove 1, .contains 1]
+    res.map (·.2) = some [true, true, true, true, false] ∧
+    res.map (·.1.len) = some 1 ∧
+    res.map (·.1.sl.lv.take 3) = some [[1], [1], []] ∧
+    res.map (fun p => p.1.nodes.map omToList) = some (some [70000]) ∧
+    ((RBS.zero.add 1 0).bind fun p => p.1.add 70000 (2 ^ 29)).map (·.1.sl.lv.take 3)
+      = some [[0, 1], [1], []] := by decide
+
+/-- Whole histories.  For every sequence of `Add / Remove / Contains / Len / Range / All / Iter`
+calls with `uint32` arguments on the zero value, the model never panics and every output is
+the output of the specification "strictly ascending list of naturals" (`specStep`: insert,
+erase, membership, length, the list itself or its first `k` elements when the callback stops
+at its `k`-th call, the whole list through `Iter` with `Next` answering false afterwards);
+the final state satisfies the representation invariant and its member list is the
+specification's set. -/
+theorem c03_run_refines (ops : List ROp) (hx : ∀ op ∈ ops, op.ArgOk) :
+    ∃ r outs, RB.runOps RB.empty ops = some (r, outs) ∧ r.Inv ∧
+      specRun [] ops = (r.toList, outs) ∧ r.toList.Pairwise (· < ·) := by
+  obtain ⟨r, outs, h1, h2, h3⟩ := runOps_spec ops RB.empty RB.empty_inv hx
+  exact ⟨r, outs, h1, h2, h3, h2.sorted⟩
+
+example :
+    (RB.runOps RB.empty [.add 5, .add 70000, .add 5, .contains 5, .remove 5, .len, .add 3, .range 0,
+      .all 1, .iter]).map (·.2) =
+      some [.bool true, .bool true, .bool false, .bool true, .bool true, .int 1, .bool true,
+        .list [3, 70000], .list [3], .iter [3, 70000] false] ∧
+    specRun [] [.add 5, .add 70000, .add 5, .contains 5, .remove 5, .len, .add 3, .range 0, .all 1, .iter] =
+      ([3, 70000], [.bool true, .bool true, .bool false, .bool true, .bool true, .int 1, .bool true,
+        .list [3, 70000], .list [3], .iter [3, 70000] false]) := by decide
 
 /-- What the hand-written model takes from the source text, re-extracted from /repo by go/ast
 on every run (`Golib/Gen/FactsC03.lean`): the conversion threshold, the sizes of the scratch
